@@ -1,5 +1,7 @@
 --------------------------- MODULE MC_SchemaCtx ---------------------------
 EXTENDS SchemaCtx, Json
+\* the project itself: the harness renders it to TypeScript (one source of truth)
+ASSUME PrintT(<<"ENVJ", ToJson([env |-> Env])>>)
 \* one SEQ line per reachable state = per call sequence (with the model's prediction), for replay
 EmitInv == PrintT(<<"SEQ", ToJson([calls |-> calls, ov |-> useOverrides, ok |-> lastOk,
                                    names |-> SetToSeq(DOMAIN ctx.col), prog |-> SetToSeq(ctx.prog),
